@@ -48,6 +48,7 @@ type params struct {
 	SecondN   int           // hits the second attack releases (0: its pacer stops at once)
 	RealPacer int           // >0: waits come from a real vegeta pacer (realPacers[RealPacer-1]); the harness pacer only counts and stops after N
 	ZeroRate  bool          // the pacer's Rate() is 0 (as the unlimited-rate pacer's is) and the client has a timeout
+	EOFFirst  bool          // targets carry a body; the transport fails the FIRST round trip of every hit with io.EOF (a kept-alive connection the server had closed)
 	JSONTgt   bool          // Cause tgterr: the targets come from the real (instrumented) lazy JSON targeter over ErrAt lines; it runs dry at call ErrAt and stays dry
 }
 
@@ -94,6 +95,9 @@ func (p params) name() string {
 	}
 	if p.ZeroRate {
 		s += ",rate()=0,client-timeout"
+	}
+	if p.EOFFirst {
+		s += ",first-round-trip-fails-with-EOF"
 	}
 	if p.RealPacer > 0 {
 		s += ",pacer=" + realPacerNames[p.RealPacer-1]
@@ -256,6 +260,17 @@ func (f fakeRT) RoundTrip(r *http.Request) (*http.Response, error) {
 		rec.Exit = vsched.TimeNow().Sub(vsched.Base())
 	}
 	f.w.rts = append(f.w.rts, rec)
+	if f.w.p.EOFFirst {
+		attempts := 0
+		for _, x := range f.w.rts {
+			if x.Attack == rec.Attack && x.Seq == rec.Seq {
+				attempts++
+			}
+		}
+		if attempts == 1 {
+			return nil, io.EOF
+		}
+	}
 	if f.w.p.FailRT {
 		return nil, errors.New("connection reset by peer")
 	}
@@ -281,6 +296,9 @@ func (w *world) targeter(t *vegeta.Target) error {
 		return errTgt
 	}
 	t.Method, t.URL = "GET", "http://h/"
+	if w.p.EOFFirst {
+		t.Method, t.Body = "POST", []byte("payload")
+	}
 	if w.p.RealTr > 0 {
 		t.URL = "fake://h/"
 	}
@@ -1139,6 +1157,9 @@ func c05Plans() []plan {
 	add(params{W0: 1, M: 1, N: 2, Cause: "pacer", FailRT: true}, -1)
 	// the Attacker is re-used for a second attack while the first one is running
 	add(params{W0: 1, M: 1, N: 2, Cause: "pacer", Second: true}, ev.Pick(2, 3))
+	// hits with a body whose first round trip dies with EOF
+	add(params{W0: 2, M: 2, N: 2, Cause: "pacer", EOFFirst: true}, ev.Pick(2, -1))
+	add(params{W0: 1, M: 2, N: 3, Cause: "pacer", EOFFirst: true}, ev.Pick(1, 2))
 	if ev.Thorough() {
 		add(params{W0: 2, M: 2, N: 2, Cause: "pacer", Second: true}, 2)
 	}
